@@ -51,6 +51,7 @@ def fmt_int(v):
 def pre(ctx):
     """rebuild the harness and re-dump the tower constants from the Rust configs"""
     _gen_regen(ctx)
+    _gen3_regen(ctx)
     sh = ctx['sh']
     rc, out = sh('cargo build --offline --bin c02', cwd=ctx['ROOT'] + '/harness', timeout=3000,
                  env={'RUSTFLAGS': '--cfg arkworks_rs_algebra_verif'})
@@ -465,7 +466,7 @@ HYPOTHESES = ['ring_theory of the base dictionary (commutative-ring laws of the 
 
 # T-field translator (lib/xlate_field.py): coq/Gen/GenField.v is regenerated from the working tree's source text before
 # the Coq build; Props/Gen.v (generated formulas = the models the theorems are about + corollaries) is a strict obligation
-STRICT_PROP_FILES = ['Gen']
+STRICT_PROP_FILES = ['Gen', 'Gen3']
 
 
 def _gen_regen(ctx):
@@ -479,3 +480,13 @@ def _gen_regen(ctx):
 # Fermat / freshman / Frobenius = p^k-th power / Euler for Z_p and the towers over it (coq/NumTh): discharges the
 # frobenius_is_pow_partial premises for towers over FpOps p
 EXTRA_PROP_FILES = ['NumTh']
+
+# T-field translator, table 3 (lib/xlate_field.py --table3): per-curve hook overrides (Fp2/Fp3/Fp6 non-residue hooks,
+# mul_by_a), tower helpers (norm, cyclotomic inverse, mul_by_fp*, Frobenius coefficient hooks), SubAssign / cofactor code,
+# point serialisation; Props/Gen3.v is a strict obligation
+def _gen3_regen(ctx):
+    import importlib.util, os
+    sp = importlib.util.spec_from_file_location('gen_pre3', os.path.join(ctx['ROOT'], 'props', 'Gen', 'pre3.py'))
+    m = importlib.util.module_from_spec(sp); sp.loader.exec_module(m)
+    m.regen(ctx)
+
